@@ -27,6 +27,14 @@ def as_pow2(t):
     return None
 
 
+def p2(k):
+    """2**k as a term: a numeral when k is one"""
+    k = z3.simplify(k) if isinstance(k, z3.ExprRef) else z3.IntVal(k)
+    if z3.is_int_value(k) and 0 <= k.as_long() <= 4096:
+        return z3.IntVal(2 ** k.as_long())
+    return L.pow2(k)
+
+
 def norm_index(idx, n):
     """python index normalisation for a sequence of length n (z3 terms)."""
     if isinstance(idx, int):
@@ -204,10 +212,10 @@ def binop(E, op, a, b, node, fr):
         raise Unsupported("general power")
     if isinstance(op, ast.LShift):
         E.may_raise("ValueError", y < 0, line, "negative shift count")
-        return SV(x * L.pow2(y), TInt)
+        return SV(x * p2(y), TInt)
     if isinstance(op, ast.RShift):
         E.may_raise("ValueError", y < 0, line, "negative shift count")
-        return SV(x / L.pow2(y), TInt)
+        return SV(x / p2(y), TInt)
     if isinstance(op, (ast.BitAnd, ast.BitOr, ast.BitXor)):
         ba, bb = bv2int_arg(x), bv2int_arg(y)
         if ba is not None and bb is not None and ba.size() == bb.size():
@@ -217,12 +225,19 @@ def binop(E, op, a, b, node, fr):
             for u, v in ((x, y), (y, x)):
                 k = as_pow2(v + 1)
                 if k is not None:   # u & (2^k - 1), exact also for negative u (two's complement semantics)
-                    return SV(u % L.pow2(k), TInt)
+                    return SV(u % p2(k), TInt)
                 k = as_pow2(v)
                 if k is not None:   # u & 2^k  (single bit)
-                    return SV(((u / L.pow2(k)) % 2) * L.pow2(k), TInt)
+                    return SV(((u / p2(k)) % 2) * p2(k), TInt)
+                k = as_pow2(-v - 1)
+                if k is not None:   # u & ~2^k  (clear one bit; exact in two's complement for every int u)
+                    return SV(u - ((u / p2(k)) % 2) * p2(k), TInt)
             return SV(L.band(x, y), TInt)
         if isinstance(op, ast.BitOr):
+            for u, v in ((x, y), (y, x)):
+                k = as_pow2(v)
+                if k is not None:   # u | 2^k  (set one bit; exact in two's complement for every int u)
+                    return SV(u + (1 - (u / p2(k)) % 2) * p2(k), TInt)
             return SV(L.bor(x, y), TInt)
         return SV(L.bxor(x, y), TInt)
     raise Unsupported("operator %s" % type(op).__name__)
@@ -762,6 +777,12 @@ def call(E, e, fr):
             cd = E.cell(v)[1]
             ts = [E.spec_bool(i, {"self": v}) for cdx in E.mro(cd) for i in cdx.invariant]
             return SV(z3.And(*ts) if ts else z3.BoolVal(True), TBool)
+        if f.id == "dput":
+            d = E.eval(e.args[0], fr)
+            d = E.cell(d)[1] if isinstance(d, Ref) else d
+            k = E.to_sv(E.eval(e.args[1], fr), d.ty.key)
+            v = E.to_sv(E.eval(e.args[2], fr), d.ty.val)
+            return SV(z3.Store(d.t, k.t, sort(TOpt(d.ty.val)).some(v.t)), d.ty)
         if f.id == "dmap":
             v = E.eval(e.args[0], fr)
             if isinstance(v, Ref) and E.cell(v)[0] == "pydict" and not E.cell(v)[1]:
@@ -802,8 +823,12 @@ def call(E, e, fr):
 def eval_old(E, node, fr):
     if not E.old_stack:
         raise Unsupported("old() without a pre-state")
-    env, heap = E.old_stack[-1]
+    ent = E.old_stack[-1]
+    env, heap = ent[0], ent[1]
     saved = E.heap
+    saved_g = E.ghostv
+    if len(ent) > 2:
+        E.ghostv = dict(ent[2])
     E.heap = dict(heap)
     f2 = Frame(fr.key, fr.module, fr.clsnode, None, dict(env))
     E.frames.append(f2)
@@ -813,6 +838,7 @@ def eval_old(E, node, fr):
     finally:
         E.frames.pop()
         E.heap = saved
+        E.ghostv = saved_g
     return _snapshot(E, r, oldheap, {})
 
 
@@ -977,6 +1003,10 @@ def call_function(E, key, args, kwargs, fr, node):
     """Call of a repository function: by contract (default) or inlined."""
     if E.spec_mode and key not in CONTRACTS and key not in INLINE:
         raise Unsupported("call of %s in a specification" % key)
+    from .registry import EFFECTS
+    if key in EFFECTS and not E.spec_mode:
+        E.trusted_used.add("effect:" + key)
+        return EFFECTS[key](E, args, kwargs, fr, node)
     fnode, mod, clsnode = E.repo.find(key)
     decos = [d.id if isinstance(d, ast.Name) else getattr(d, "attr", "") for d in fnode.decorator_list]
     variants = [k for k in CONTRACTS if k == key or k.startswith(key + "#")]
@@ -1042,7 +1072,7 @@ def call_contract(E, c, key, fnode, mod, clsnode, args, kwargs, fr, node):
             raise Unsupported("ghost argument %s of %s is not in scope at the call (line %d)" % (g, key, line))
     pre_heap = dict(E.heap)
     pre_env = dict(env)
-    E.old_stack.append((pre_env, pre_heap))
+    E.old_stack.append((pre_env, pre_heap, dict(E.ghostv)))
     try:
         if not E.spec_mode:
             for r in c.requires:
@@ -1076,6 +1106,8 @@ def call_contract(E, c, key, fnode, mod, clsnode, args, kwargs, fr, node):
                                               for f, t in cd.fields.items()}))
                 else:
                     E.setcell(v, E.havoc_cell(short + "." + m, cell))
+        for g in c.modifies_ghost:
+            E.ghostv[g] = E.fresh("ghost_" + g, E.ghostv[g].ty)
         result = None
         if c.returns is not None:
             result = E.fresh_of("ret_" + short.replace(".", "_"), c.returns, assume_inv=False)
